@@ -56,6 +56,10 @@ def request(P, rule, kind, s, i):
 def aborted_request(P, rule, kind, s, i, n):
     """runs the request but raises a foreign exception at the n-th function call made inside abnf/parser.py; returns True
     when the request was really cut short"""
+    if n in (13, 34, 89):
+        # ... or lets it run out of interpreter stack (a genuine RecursionError half-way through)
+        ec.starved_of_stack(lambda: request(P, rule, kind, s, i), n // 2 + 6)
+        return True
     return ec.abort_at_call(P, lambda: request(P, rule, kind, s, i), n)
 
 
@@ -179,7 +183,7 @@ def run(ctx):
                 slow_skipped += 1
                 continue
             # history run
-            lim0 = rng.choice([None, 1, 2, 3])
+            lim0 = rng.choice([None, 1, 2, 3, 0])   # 0 = no limit (README)
             P.ParseCache.max_cache_size = lim0
             cls, rules = G.build(P, gr)
             P.ParseCache.max_cache_size = None
@@ -193,7 +197,7 @@ def run(ctx):
                     P.ParseCache.clear_caches()
                     script.append(("clear",))
                 elif u < 0.22 and reps:
-                    lim = rng.choice([None, 1, 2, 3])
+                    lim = rng.choice([None, 1, 2, 3, 0])
                     for r_ in (reps if rng.random() < 0.5 else [rng.choice(reps)]):
                         r_.lparse_cache.max_size = lim
                     script.append(("limit-live", lim))
